@@ -134,6 +134,109 @@ theorem isAtomic_iff (s : Str) :
       simp only [↓reduceIte]
       exact head?_filter_isSome _ _ m hm (by simp [hr, atEnd])
 
+/-! ### the compound recogniser is exact -/
+
+theorem sepM_cases (s : Str) (sr : Str × Str) (h : sr ∈ sepM s) :
+    ∃ c, (c = '*' ∨ c = '/') ∧ s = c :: sr.2 := by
+  cases s with
+  | nil => simp [sepM] at h
+  | cons c t =>
+    by_cases h1 : c = '*'
+    · subst h1; simp [sepM] at h; subst h; exact ⟨'*', Or.inl rfl, rfl⟩
+    · by_cases h2 : c = '/'
+      · subst h2; simp [sepM] at h; subst h; exact ⟨'/', Or.inr rfl, rfl⟩
+      · simp [sepM, h1, h2] at h
+
+theorem atomThenSep_sound (s r : Str) (h : r ∈ atomThenSep s) :
+    ∃ a c, ValidAtom a ∧ (c = '*' ∨ c = '/') ∧ s = a ++ c :: r := by
+  have hsh : compoundAtomShape.pieces = [.optPre, .unit, .optPow] := rfl
+  unfold atomThenSep at h
+  rw [hsh, List.mem_flatMap] at h
+  obtain ⟨m, hm, hr⟩ := h
+  rw [List.mem_map] at hr
+  obtain ⟨sr, hsr, rfl⟩ := hr
+  obtain ⟨hv, hs⟩ := match_atom_sound s m hm
+  obtain ⟨c, hc, hrest⟩ := sepM_cases _ sr hsr
+  exact ⟨m.matched, c, hv, hc, by rw [← hs, hrest]⟩
+
+theorem plusGroups_sound : ∀ (fuel : Nat) (s r : Str), r ∈ plusGroups fuel s →
+    ∃ front a c, ValidAtom a ∧ (c = '*' ∨ c = '/') ∧ s = front ++ a ++ c :: r := by
+  intro fuel
+  induction fuel with
+  | zero => intro s r h; simp [plusGroups] at h
+  | succ n ih =>
+    intro s r h
+    simp only [plusGroups, List.mem_flatMap, List.mem_append, List.mem_singleton] at h
+    obtain ⟨r1, hr1, h | rfl⟩ := h
+    · obtain ⟨a1, c1, _, _, hs1⟩ := atomThenSep_sound s r1 hr1
+      obtain ⟨front, a, c, hv, hc, hs2⟩ := ih r1 r h
+      exact ⟨a1 ++ c1 :: front, a, c, hv, hc, by rw [hs1, hs2]; simp⟩
+    · obtain ⟨a1, c1, hv, hc, hs1⟩ := atomThenSep_sound s r hr1
+      exact ⟨[], a1, c1, hv, hc, by rw [hs1]; simp⟩
+
+theorem compoundAt_sound (s : Str) (h : compoundAt s = true) :
+    ∃ front a₁ c a₂ back, ValidAtom a₁ ∧ ValidAtom a₂ ∧ (c = '*' ∨ c = '/') ∧
+      s = front ++ a₁ ++ c :: a₂ ++ back := by
+  have hsh : compoundAtomShape.pieces = [.optPre, .unit, .optPow] := rfl
+  unfold compoundAt at h
+  rw [List.any_eq_true] at h
+  obtain ⟨r, hr, hm⟩ := h
+  obtain ⟨front, a₁, c, hv₁, hc, hs⟩ := plusGroups_sound _ s r hr
+  rw [hsh] at hm
+  cases hL : matchPieces [.optPre, .unit, .optPow] { rest := r } with
+  | nil => rw [hL] at hm; simp at hm
+  | cons m tl =>
+    have hmem : m ∈ matchPieces [.optPre, .unit, .optPow] { rest := r } := by rw [hL]; simp
+    obtain ⟨hv₂, hs₂⟩ := match_atom_sound r m hmem
+    exact ⟨front, a₁, c, m.matched, m.rest, hv₁, hv₂, hc, by rw [hs, ← hs₂]; simp⟩
+
+theorem mem_tails (s t : Str) (h : t ∈ tails s) : ∃ front, s = front ++ t := by
+  induction s with
+  | nil => simp [tails] at h; subst h; exact ⟨[], rfl⟩
+  | cons c cs ih =>
+    simp only [tails, List.mem_cons] at h
+    rcases h with rfl | h
+    · exact ⟨[], rfl⟩
+    · obtain ⟨f, hf⟩ := ih h
+      exact ⟨c :: f, by rw [hf]; rfl⟩
+
+/-- `is_compound` accepts exactly the strings that contain two table atoms joined by `*` or `/` -/
+theorem isCompound_iff (s : Str) :
+    isCompound s = true ↔ ∃ front a₁ c a₂ back, ValidAtom a₁ ∧ ValidAtom a₂ ∧ (c = '*' ∨ c = '/') ∧
+      s = front ++ a₁ ++ c :: a₂ ++ back := by
+  have hsearch : compoundUsesSearch = true := rfl
+  constructor
+  · intro h
+    unfold isCompound at h
+    rw [hsearch] at h
+    simp only [Bool.and_eq_true, ↓reduceIte] at h
+    obtain ⟨_, h⟩ := h
+    rw [List.any_eq_true] at h
+    obtain ⟨t, ht, hc⟩ := h
+    obtain ⟨f0, hf0⟩ := mem_tails s t ht
+    obtain ⟨front, a₁, c, a₂, back, hv₁, hv₂, hcc, hs⟩ := compoundAt_sound t hc
+    exact ⟨f0 ++ front, a₁, c, a₂, back, hv₁, hv₂, hcc, by rw [hf0, hs]; simp⟩
+  · rintro ⟨front, a₁, c, a₂, back, ⟨p₁, u₁, w₁, hp₁, hu₁, hw₁, rfl⟩, ⟨p₂, u₂, w₂, hp₂, hu₂, hw₂, rfl⟩, hc, rfl⟩
+    have hat := compoundAt_atoms_generic p₁ u₁ w₁ p₂ u₂ w₂ c back hp₁ hu₁ hw₁ hp₂ hu₂ hw₂ hc
+    have hne : (p₁ ++ u₁ ++ w₁ ++ c :: (p₂ ++ u₂ ++ w₂) ++ back) ≠ [] := by simp
+    have := compound_search front _ hat hne
+    simpa [List.append_assoc] using this
+
+/-- `is_si` accepts exactly: a table atom (optionally followed by one newline), or any string containing two
+table atoms joined by `*` or `/` -/
+theorem isSi_iff (s : Str) :
+    isSi s = true ↔ (∃ a, ValidAtom a ∧ (s = a ∨ s = a ++ ['\n'])) ∨
+      (∃ front a₁ c a₂ back, ValidAtom a₁ ∧ ValidAtom a₂ ∧ (c = '*' ∨ c = '/') ∧
+        s = front ++ a₁ ++ c :: a₂ ++ back) := by
+  rw [← isAtomic_iff, ← isCompound_iff]
+  unfold isSi
+  cases hs : s with
+  | nil =>
+    have h1 : isAtomic [] = false := by decide
+    have h2 : isCompound [] = false := by decide
+    simp [h1, h2]
+  | cons c cs => simp
+
 /-! ### sanitizer on atoms -/
 
 theorem containsSub_append_noU (a b : Str) (hb : 'u' ∉ b) :
